@@ -166,7 +166,7 @@ def random_tree(rng, depth=0, pool=None):
         raise ValueError(kind)
 
     n = rng.randint(1, 4) if depth else rng.randint(1, 5)
-    names = ['fc', 'conv', 'head', 'layer', 'attn', 'query_key_value', 'dense_4h', 'proj', 'a', 'b1']
+    names = ['fc', 'conv', 'head', 'layer', 'attn', 'query_key_value', 'dense_4h', 'proj', 'a', 'b1', 'module', 'module']   # ('module': the child name of DataParallel/DDP wrappers)
     mods = {}
     for i in range(n):
         kind = rng.choice(kinds)
